@@ -371,7 +371,12 @@ def to_latlon(world, trace, lat0, lon0):
     c = math.cos(math.radians(lat0))
 
     def tr(p):
-        return [lat0 + math.degrees(p[0] / R), lon0 + math.degrees(p[1] / (R * c))]
+        lon = lon0 + math.degrees(p[1] / (R * c))
+        if lon > 180.0:          # a street that crosses the antimeridian
+            lon -= 360.0
+        elif lon <= -180.0:
+            lon += 360.0
+        return [lat0 + math.degrees(p[0] / R), lon]
     w2 = dict(world)
     w2["latlon"] = True
     w2["nodes"] = [[l, tr(p), list(nb)] for l, p, nb in world["nodes"]]
